@@ -114,8 +114,8 @@ CLAIMS = {
         note=BND + "Known findings: misspelt 'columne' key and IndexError when rendering the len+1 position (both pinned by tests)."),
     "C14": dict(
         category="other", engine="ctorcheck+rtc",
-        technique="attribute-preservation obligations on every rebuild site (constructor-argument analysis of the real source, all inputs) + run-time data-structure invariants (closed registry, source frame, removed unreachable, untargeted preserved) as postconditions of schema operations over operation sequences",
-        text="All inputs: at each of the 19 sites that rebuild a schema element (ASTTypeBuilder._extend_*, SchemaVisitor.on_*, CamelCaseSchemaTransform.on_*) every __init__ parameter of the rebuilt class is passed and derived from the source element's attribute (110 obligations). Bounded: clone, 11 visibility predicates, camel-casing and 9 extension documents applied to a source schema carrying resolvers, default / "
+        technique="attribute-preservation obligations on every rebuild site (constructor-argument analysis of the real source, all inputs) + frame obligations: extending mutates nothing it was given (alias analysis) + run-time data-structure invariants (closed registry, source frame, removed unreachable, untargeted preserved) as postconditions of schema operations over operation sequences",
+        text="All inputs: no _extend_* method and no function of the SDL builder writes into the elements it was given (20 obligations); at each of the 18 sites that rebuild a schema element (ASTTypeBuilder._extend_*, SchemaVisitor.on_*, CamelCaseSchemaTransform.on_*) every __init__ parameter of the rebuilt class is passed and derived from the source element's attribute (110 obligations). Bounded: clone, 11 visibility predicates, camel-casing and 9 extension documents applied to a source schema carrying resolvers, default / "
              "subscription resolvers, type resolvers and python names - each alone, in sequences of 2-3 on the same source, and chained. After every "
              "operation: every reference in the result is the object registered under its name (fields, arguments, interfaces, members, roots), the "
              "source's deep snapshot is unchanged and the source is still closed, hidden elements are unreachable through the registry and "
@@ -167,9 +167,9 @@ CLAIMS = {
         note=BND + "Known finding: defaults are coerced before extensions are merged."),
     "C12": dict(
         category="other", engine="rtc",
-        technique="frame obligation by typing the module state read by the serialisation code + run-time round-trip / fix-point / history contracts",
+        technique="frame obligations on the serialisation code (no consumable module state read; no in-place mutation of argument state, by alias analysis of the real source) + run-time round-trip / fix-point / history contracts",
         text="The serialisation modules hold no consumable module-level state that their functions read (generators / iterators), checked on the live "
-             "modules. Bounded: schema -> SDL -> schema structural identity (defaults in external form), text fix-point, parser acceptance for 11 "
+             "modules; no method of the schema printer and no function it prints through mutates state reachable from its arguments (18 obligations). Bounded: schema -> SDL -> schema structural identity (defaults in external form), text fix-point, parser acceptance for 11 "
              "schemas x 6 option sets; every call of 2-3 call sequences equals the first call of a fresh process.",
         note=BND + "Trusted: vf/ref_sdl.describe; build_schema (C11)."),
 }
